@@ -138,6 +138,7 @@ func c15Drivers(c *Ctx, prog *load.Program) {
 		for _, pn := range r.Ex.Panics {
 			c.R.Fail("C15-1", key+"/no-panic", PosStr(prog, pn.Pos), fmt.Sprintf("a panic (%s) is reachable when {%s}", pn.Msg, GuardString(pn.Guard)))
 		}
+		indexSafety(c, "C15-1", key, pos, r)
 		acc, prob := acceptFormula(r, 1)
 		if prob != "" {
 			c.R.Unknown("C15-1", key, pos, prob)
